@@ -112,7 +112,9 @@ pub fn check_stream(ctx: &Ctx, bytes: &[u8], expect: &[u8], what: &str, with_xz:
         return;
     }
     if with_xz {
-        let f = xz::XzFile { check_id: 4, blocks: vec![xz::Block { payload: bytes.to_vec(), plain: expect.to_vec(), with_csize: true, with_usize: true, ..Default::default() }], ..Default::default() };
+        // the block announces the largest dictionary (property byte 40 = 4 GiB - 1) for every other sequence, 8 MiB otherwise
+        let filters = if bytes.len() % 2 == 0 { Some(vec![(xz::mbi(0x21), xz::mbi(1), vec![40u8])]) } else { None };
+        let f = xz::XzFile { check_id: 4, blocks: vec![xz::Block { payload: bytes.to_vec(), plain: expect.to_vec(), with_csize: true, with_usize: true, o_filters: filters, ..Default::default() }], ..Default::default() };
         let (file, _) = xz::build(&f);
         let (v, out, consumed) = dec_plain(Fmt::Xz, &Opts::default(), &file);
         ctx.traces.fetch_add(1, Ordering::Relaxed);
@@ -214,6 +216,19 @@ pub fn run(tier: Tier) -> i32 {
             cases.push(("65536-byte uncompressed chunk".into(), vec![Chunk::U { reset: true, data: big.clone() }]));
             cases.push(("65535-byte uncompressed chunk".into(), vec![Chunk::U { reset: true, data: big[..65535].to_vec() }]));
             cases.push(("two 1-byte chunks".into(), vec![Chunk::U { reset: true, data: vec![1] }, Chunk::C { class: 3, props: (3, 0, 2), prog: vec![Sym::L(2)] }]));
+            // long chains of state resets inside one stream (counters that wrap between two uses of a literal context):
+            // a chunk using high literal contexts, then c-1 state-reset chunks that avoid them, then one that uses them again
+            for c in [255usize, 256, 257, 512] {
+                let hi: Vec<Sym> = (0..40u32).map(|i| Sym::L(0xE0 + ((i * 7) % 32) as u8)).chain([Sym::M(3, 5), Sym::L(0xFF)]).collect();
+                let hi2: Vec<Sym> = (0..30u32).map(|i| Sym::L(0xE1 + ((i * 11) % 30) as u8)).chain([Sym::M(7, 9), Sym::L(0xF0), Sym::S]).collect();
+                let lo: Vec<Sym> = (0..6u32).map(|i| Sym::L(((i * 5) % 32) as u8)).collect();
+                let mut cs = vec![Chunk::C { class: 3, props: (3, 0, 2), prog: hi }];
+                for k in 1..c {
+                    cs.push(Chunk::C { class: if k % 2 == 0 { 1 } else { 2 }, props: (3, 0, 2), prog: lo.clone() });
+                }
+                cs.push(Chunk::C { class: 1, props: (3, 0, 2), prog: hi2 });
+                cases.push((format!("chain of {} state-reset chunks between two chunks that use the same literal contexts", c - 1), cs));
+            }
             // compressed chunk with unpacked size exactly 2^21
             let mut p = vec![Sym::L(0x55)];
             p.extend(std::iter::repeat(Sym::M(1, 273)).take(7681));
